@@ -236,6 +236,34 @@ def outcome(rec, retry):
     return "reissued" if rec["issues"] > 1 else "wrong_result"
 
 
+def _strace_run(argv, limit):
+    """Run strace on the driver in its own process group; after `limit` seconds end it with
+    SIGTERM (strace then flushes its log and kills the tracee), then SIGKILL the whole group.
+    Returns (stdout, stderr, timed_out)."""
+    import signal
+    import subprocess
+    p = subprocess.Popen(argv, stdout=subprocess.PIPE, stderr=subprocess.PIPE, text=True, start_new_session=True)
+    try:
+        out, err = p.communicate(timeout=limit)
+        return out, err, False
+    except subprocess.TimeoutExpired:
+        try:
+            p.send_signal(signal.SIGTERM)
+            out, err = p.communicate(timeout=5)
+        except subprocess.TimeoutExpired:
+            out, err = "", ""
+        try:
+            os.killpg(p.pid, signal.SIGKILL)
+        except OSError:
+            pass
+        try:
+            o2, e2 = p.communicate(timeout=5)
+            out, err = out or o2, err or e2
+        except Exception:
+            pass
+        return out, err, True
+
+
 def strace_crosscheck(chk, bindir, wrappers, sysinj_results, tier):
     """Independent instrument: the same (wrapper, forced answer) under strace's own injection
     (-e inject=NR:retval=V / error=E).  The decoded result and the number of issues must be the
@@ -249,6 +277,7 @@ def strace_crosscheck(chk, bindir, wrappers, sysinj_results, tier):
     todo = [w for k, w in enumerate(wrappers) if tier != "quick" or k % 9 == 0]
     exe = os.path.join(bindir, "sysw")
     compared = 0
+    uncomparable = []
     for w in todo:
         for val in values:
             if w["retry"] == "ebusy" and val == -16:
@@ -263,24 +292,32 @@ def strace_crosscheck(chk, bindir, wrappers, sysinj_results, tier):
             core.write_ndjson(plan, [{"i": 0, "w": w["w"], "raws": [str(val)], "mode": "s"}])
             log = os.path.join(chk.work, "strace.log")
             # 1. how many calls of that system call precede the window (libc start-up, plan reading)
-            subprocess.run(["strace", "-s", "400", "-o", log, "-e", "trace=%s,write" % w["nr"], exe, "run", plan],
-                           stdout=subprocess.PIPE, stderr=subprocess.PIPE, timeout=60)
-            before = 0
+            # (run for real, without injection: a wrapper whose real call blocks -- futex wait,
+            # pause-like calls -- never returns; the prefix of the log up to the begin marker is
+            # all this step needs, so the run is ended after a short limit and is not an error)
+            _o, _e, blocked = _strace_run(["strace", "-s", "400", "-o", log, "-e", "trace=%s,write" % w["nr"], exe, "run", plan], 15)
+            before, marked = 0, False
             for line in open(log, errors="replace"):
                 if line.startswith("write(-1, \"MARK:"):
+                    marked = True
                     break
                 if line.startswith(w["nr"] + "("):
                     before += 1
+            if not marked:
+                uncomparable.append("%s %d: no begin marker in the uninjected run%s" % (w["w"], val, " (blocked)" if blocked else ""))
+                continue
             if w["nr"] == "write":
                 before += 1   # the begin marker is a write itself
             if w["nr"] == "execve":
                 before -= 1   # the exec of the driver itself is logged but not counted by strace's `when`
             inj = ("error=%d" % -val) if is_err else ("retval=%d" % (val & ((1 << 64) - 1)))
-            p = subprocess.run(["strace", "-s", "400", "-o", log, "-e", "trace=%s,write" % w["nr"],
-                                "-e", "inject=%s:%s:when=%d" % (w["nr"], inj, before + 1), exe, "run", plan],
-                               stdout=subprocess.PIPE, stderr=subprocess.PIPE, text=True, timeout=60)
+            out, err, blocked2 = _strace_run(["strace", "-s", "400", "-o", log, "-e", "trace=%s,write" % w["nr"],
+                                              "-e", "inject=%s:%s:when=%d" % (w["nr"], inj, before + 1), exe, "run", plan], 60)
+            if blocked2:
+                uncomparable.append("%s %d: the injected run did not end within 60 s" % (w["w"], val))
+                continue
             got = None
-            for line in p.stdout.splitlines():
+            for line in out.splitlines():
                 try:
                     got = json.loads(line)
                 except ValueError:
@@ -292,13 +329,13 @@ def strace_crosscheck(chk, bindir, wrappers, sysinj_results, tier):
                 elif inwin and line.startswith(w["nr"] + "("):
                     issues += 1
             if got is None:
-                raise core.ToolError("strace cross-check: no result for %s %d: %s" % (w["w"], val, p.stderr[-500:]))
+                raise core.ToolError("strace cross-check: no result for %s %d: %s" % (w["w"], val, err[-500:]))
             a = result_rec(got)
             if a != ref["res"] or issues != ref["issues"]:
                 raise core.ToolError("instruments disagree on %s with answer %d: strace %s (%d issues), sysinj %s (%d issues)" % (
                     w["w"], val, a, issues, ref["res"], ref["issues"]))
             compared += 1
-    chk.extra["strace_crosscheck"] = {"compared": compared, "disagreements": 0}
+    chk.extra["strace_crosscheck"] = {"compared": compared, "disagreements": 0, "uncomparable": uncomparable}
 
 
 def prepare(chk):
